@@ -126,10 +126,28 @@ use unowned::Unowned;
 // has an aliasing copy in `names`, and no other copies elsewhere. All
 // `Unowned<str>` values in `names` are either a copy of a value in `index` or
 // are the result of `Unowned::from("")`.
-#[derive(Clone)]
 pub struct VarNameMap {
     names: Vec<Unowned<str>>,
     index: HashMap<Unowned<str>, VarNo>,
+}
+
+impl Clone for VarNameMap {
+    fn clone(&self) -> Self {
+        // Every name needs its own allocation, since each map frees its names
+        // on drop (see the type invariant).
+        let mut names = Vec::with_capacity(self.names.len());
+        let mut index = HashMap::with_capacity(self.index.len());
+        for (var, name) in self.names.iter().enumerate() {
+            if name.is_empty() {
+                names.push("".into());
+            } else {
+                let name: Unowned<str> = Box::<str>::from(&**name).into();
+                index.insert(name, var as VarNo);
+                names.push(name);
+            }
+        }
+        Self { names, index }
+    }
 }
 
 impl Drop for VarNameMap {
